@@ -24,6 +24,6 @@ META = dict(
         "node labels passed by the workload contain none of the Newick structure characters '(),:;' "
         "(as_newick documents that labels are not escaped)",
     ],
-    BUDGET={"quick": 45.0, "thorough": 840.0},
+    BUDGET={"quick": 40.0, "thorough": 840.0},
     CASE_TIMEOUT={"quick": 120, "thorough": 600},
 )
